@@ -48,6 +48,10 @@ fn query<F: Fl>(w: &CWorld<F>, q: &Value, rng_rej: &HashSet<Triple>) -> Value {
             }
             o => json!(o.failure()),
         },
+        "edge_eq" => {
+            let a = &w.objs[(q["a"].as_u64().unwrap() - 1) as usize];
+            match guarded(|| F::edge_eq_table(a)) { Guarded::Ok(t) => json!(t), o => json!(o.failure()) }
+        }
         "cmp" => {
             let a = &w.objs[(q["a"].as_u64().unwrap() - 1) as usize];
             let b = &w.objs[(q["b"].as_u64().unwrap() - 1) as usize];
@@ -158,7 +162,7 @@ fn record_pair<A: Fl, B: Fl>(opts: &HashMap<String, String>) -> Value {
                     }
                 }
             } else {
-                let kinds = ["search", "search", "search", "obs", "lists", "cmp", "scc", "json", "cbor_roundtrip", "dot"];
+                let kinds = ["search", "search", "search", "obs", "lists", "cmp", "edge_eq", "scc", "json", "cbor_roundtrip", "dot"];
                 let kq = kinds[rng.gen_range(0..kinds.len())];
                 // scc() is specified only for containers whose members' neighbours are all members
                 let kq = if kq == "scc" {
@@ -183,6 +187,8 @@ fn record_pair<A: Fl, B: Fl>(opts: &HashMap<String, String>) -> Value {
                     }
                     q = json!({"q": "search", "kind": kind.name(), "entry": entry.name(), "root": root, "target": target,
                                "transpose": A::DIRECTED && rng.gen_bool(0.4), "meth": meth, "rejects_value": rej.iter().next().map(|t| t.2).unwrap_or(0)});
+                } else if kq == "edge_eq" {
+                    q["a"] = json!(rng.gen_range(1..=nk));
                 } else if kq == "cmp" {
                     q["a"] = json!(rng.gen_range(1..=nk + nd));
                     q["b"] = json!(rng.gen_range(1..=nk + nd));
